@@ -285,10 +285,12 @@ def numeric_oracle(args):
     n, instrs = args["n"], [tuple(x) for x in args["instrs"]]
     gates = [x for x in instrs if x[1] in ("G1", "G2")]
 
+    pvm = args.get("pvm")  # bitstring projectors instead of Pauli observables (the two kinds cannot be mixed in one run)
+
     def run(ins, sampling, p=None):
         qc = build_qiskit(n, ins)
         if p is None:
-            obs = [Observable("z", q) for q in range(n)] + [Observable("x", 0)]
+            obs = [Observable(b) for b in pvm] if pvm else [Observable("z", q) for q in range(n)] + [Observable("x", 0)]
             p = StrongSimParams(obs, sample_layers=sampling, show_progress=False, threshold=1e-14)
         with common.time_limit(30):
             simulator.run(MPS(n), qc, p, None, parallel=False)
@@ -297,6 +299,8 @@ def numeric_oracle(args):
     def exact(prefix):
         qc = build_qiskit(n, [x for x in prefix if x[1] in ("G1", "G2")])
         sv = Statevector(qc)
+        if pvm:  # probability of the bitstring, character i = qubit i (Qiskit: amplitude index = sum_i b_i 2^i)
+            return np.array([float(abs(sv.data[sum(int(c) << i for i, c in enumerate(b))]) ** 2) for b in pvm])
         vals = []
         for q in range(n):
             lab = ["I"] * n
@@ -335,6 +339,8 @@ def numeric_oracle(args):
         sampled = run(instrs, True)
     except common.HardTimeout:
         return "simulator.run did not terminate within 30 s"
+    except Exception as e:  # noqa: BLE001
+        return f"simulator.run raised {type(e).__name__}: {e} (observables: {'bitstring projectors ' + str(pvm) if pvm else 'Pauli'})"
     if np.max(np.abs(full_plain[:, -1] - stripped[:, -1])) > 1e-8:
         return "results differ between the circuit and the same circuit without barriers/measurements"
     if np.max(np.abs(sampled[:, -1] - stripped[:, -1])) > 1e-8:
@@ -363,6 +369,10 @@ def search(ctx):
                 hist.append([list(x) for x in prev])
             args.update(history=hist, ctor_mid=int(ctx.rng.integers(0, 5)))
             ctx.count("history_runs")
+        elif k % 3 == 0:
+            # bitstring projectors sampled at the labelled barriers (k = 0: on an entangled state with gates still to come)
+            args["pvm"] = ["".join(str(int(b)) for b in ctx.rng.integers(0, 2, size=n)) for _ in range(3)] + ["0" * n, "1" * n]
+            ctx.count("bitstring_observables")
         why = numeric_oracle(args)
         kinds = [x[1] for x in instrs]
         ctx.case(nontrivial_key=("num", k) if any(kd in ("SBar", "Bar", "Meas") for kd in kinds) else None)
